@@ -62,3 +62,11 @@ claim("C06", "model_checking",
       "Virtual environment: time passes only in select()/callbacks; arrival-time menu relative to the timeout; the 16-bit counter wrap "
       "is explored with the library's own generator at mask=3 and witnessed once on the real counter (65537 commands).",
       "DESIGN.md section 4, C06")
+claim("C13", "model_checking",
+      "Breadth-first search over all operation histories of depth <=3 (thorough 4) on real MemoryIO/SlicedMemoryIO objects (root views of "
+      "length 0, 1, 4 at an unaligned base, up to 3 live views) over an alphabet of seeks (all whences, negative and past-the-end "
+      "offsets), reads, writes, 49 slicings, close/with/free etc.; states de-duplicated on (view bounds, offset, closed, freed, region "
+      "bytes). On every transition the result is compared with a bounded-file reference model and every memory access the view issues "
+      "must lie inside that view; after close/free data/position operations must raise.",
+      "Reference = bounded file with Python seek semantics; positions < 0 constrain only confinement; fake controller = byte array.",
+      "DESIGN.md section 4, C13")
